@@ -91,8 +91,8 @@ class SimFile:
             half = data[:max(0, len(data) // 2)]
             if not self._fs.dead:
                 for d in self._buf:
-                    self._real.write(d)
-                self._real.write(half)
+                    self._put(d)
+                self._put(half)
                 self._real.flush()
             self._buf = []
             raise OSError(errno.ENOSPC, "No space left on device (injected, torn write)")
@@ -104,14 +104,29 @@ class SimFile:
         for l in lines:
             self.write(l)
 
+    def _put(self, d):
+        # text and bytes may be mixed when a program writes through `stream.buffer` of a text stream
+        if isinstance(d, (bytes, bytearray, memoryview)) and hasattr(self._real, "buffer") and "b" not in self._mode:
+            self._real.flush()
+            self._real.buffer.write(d)
+        else:
+            self._real.write(d)
+
     def _persist(self):
         if self._fs.dead:
             self._buf = []
             return
         for d in self._buf:
-            self._real.write(d)
+            self._put(d)
         self._buf = []
         self._real.flush()
+
+    @property
+    def buffer(self):
+        """The binary layer of a text stream (sys.stdout.buffer): same events, same write buffer, same faults."""
+        if "b" in self._mode:
+            raise AttributeError("buffer")
+        return _BinaryView(self)
 
     def flush(self):
         if self._closed:
@@ -123,6 +138,24 @@ class SimFile:
                 self._buf = []          # the data never reached the disk
                 raise
             self._persist()
+
+    # -- position and size: like the io classes, these flush what was written so far
+    def truncate(self, size=None):
+        if self._writing:
+            self.flush()
+        if self._fs.dead:
+            return size or 0
+        return self._real.truncate(size) if size is not None else self._real.truncate()
+
+    def seek(self, *a):
+        if self._writing and self._buf:
+            self.flush()
+        return self._real.seek(*a)
+
+    def tell(self):
+        if self._writing and self._buf:
+            self.flush()
+        return self._real.tell()
 
     def close(self):
         if self._closed:
@@ -187,6 +220,30 @@ def _raw_write(fs, pclass, data, really_write):
     while done < len(data):
         done += really_write(data[done:])
     return done
+
+
+class _BinaryView:
+    def __init__(self, f):
+        self._f = f
+
+    def write(self, data):
+        return self._f.write(bytes(data))
+
+    def flush(self):
+        return self._f.flush()
+
+    def close(self):
+        return self._f.close()
+
+    def fileno(self):
+        return self._f.fileno()
+
+    @property
+    def closed(self):
+        return self._f.closed
+
+    def writable(self):
+        return True
 
 
 class SimRawFile:
